@@ -49,6 +49,7 @@ type c19case struct {
 	Src       string `json:"src"`
 	AnyPort   bool   `json:"anyPort"`
 	FirstSeen bool   `json:"firstSeen"`
+	Early     bool   `json:"early"` // steal/conn: the intruder connection used the session id (OPTIONS) before streaming began
 	Proto     string `json:"proto"`
 	How       string `json:"how"`
 	State     string `json:"state"`
@@ -563,7 +564,13 @@ func (v *c19vic) setup(proto string, track int, record bool) error {
 }
 
 // c19victim connects from 127.0.0.1 and brings a session to state over proto ("udp" | "tcp").
-func c19victim(bd *bed.Bed, state, proto string) (*c19vic, error) {
+// c19victimHook, when set, runs right before the victim starts streaming (PLAY / RECORD).
+func c19victim(bd *bed.Bed, state, proto string, hooks ...func(v *c19vic)) (*c19vic, error) {
+	before := func(v *c19vic) {
+		for _, h := range hooks {
+			h(v)
+		}
+	}
 	peer, err := c19dial(bd, c19ipPeer)
 	if err != nil {
 		return nil, err
@@ -573,6 +580,7 @@ func c19victim(bd *bed.Bed, state, proto string) (*c19vic, error) {
 	case "prePlay", "play":
 		v.url = bd.URL("stream")
 		if err = v.setup(proto, 0, false); err == nil && state == "play" {
+			before(v)
 			err = v.do(&base.Request{Method: base.Play, URL: bed.MustURL(v.url)})
 		}
 	case "preRecord", "record":
@@ -585,6 +593,7 @@ func c19victim(bd *bed.Bed, state, proto string) (*c19vic, error) {
 		// preRecord keeps track 1 free so that a SETUP of it would be a valid request
 		if err == nil && state == "record" {
 			if err = v.setup(proto, 1, true); err == nil {
+				before(v)
 				err = v.do(&base.Request{Method: base.Record, URL: bed.MustURL(v.url)})
 			}
 		}
@@ -1142,8 +1151,29 @@ func c19steal(c *c19case, js string, s *vt.Sink, _ int64) error {
 		fail("victim", fmt.Errorf("unknown how %q", c.How))
 		return nil
 	}
-	v, err := c19victim(bd, c.State, proto)
+	// early: the other connection shows up with the session id (a harmless OPTIONS, which the
+	// server answers) while the session is still being set up, and comes back once it streams
+	var in *bed.Peer
+	earlyStatus := 0
+	v, err := c19victim(bd, c.State, proto, func(v *c19vic) {
+		if !c.Early || c.How != "conn" {
+			return
+		}
+		p, err := c19dial(bd, fromIP)
+		if err != nil {
+			return
+		}
+		in = p
+		r := in.Do(&base.Request{Method: base.Options, URL: bed.MustURL(v.url),
+			Header: base.Header{"Session": base.HeaderValue{v.sid}}})
+		if r.Res != nil {
+			earlyStatus = int(r.Res.StatusCode)
+		}
+	})
 	if err != nil {
+		if in != nil {
+			in.Close()
+		}
 		fail("victim", err)
 		return nil
 	}
@@ -1156,10 +1186,12 @@ func c19steal(c *c19case, js string, s *vt.Sink, _ int64) error {
 	st0 := sess.State()
 	opened0, _, _, _ := bd.Counters()
 
-	in, err := c19dial(bd, fromIP)
-	if err != nil {
-		fail("intruder", err)
-		return nil
+	if in == nil {
+		in, err = c19dial(bd, fromIP)
+		if err != nil {
+			fail("intruder", err)
+			return nil
+		}
 	}
 	defer in.Close()
 	record := c.State == "preRecord" || c.State == "record"
@@ -1187,7 +1219,7 @@ func c19steal(c *c19case, js string, s *vt.Sink, _ int64) error {
 	opened1, _, _, _ := bd.Counters()
 	tr.Emit("steal", "how", c.How, "status", status, "same", st1 == st0 && !closed,
 		"state", c.State, "method", c.Method, "st0", st0.String(), "st1", st1.String(), "closed", closed,
-		"newSessions", opened1-opened0)
+		"newSessions", opened1-opened0, "early", c.Early, "earlyStatus", earlyStatus)
 	tr.Emit("end")
 	return nil
 }
